@@ -24,7 +24,7 @@ import (
 // ---------------------------------------------------------------- C15
 
 var c15Answers = []string{"valid", "valid_extra", "valid_big", "missing", "error", "wrong_log_key", "no_wit_sig", "bad_wit_sig", "other_wit", "corrupted", "other_log", "empty", "garbage"}
-var c15Net = []string{"", "", "", "status:400", "status:404", "status:409", "status:500", "status:503", "status:201", "drop", "droprsp", "redirect:301", "redirect:302", "redirect:307", "redirect:308", "trunc:3", "stall", "delay:700"}
+var c15Net = []string{"redirloop:307", "redirloop:308", "redirloop:302", "", "", "", "status:400", "status:404", "status:409", "status:500", "status:503", "status:201", "drop", "droprsp", "redirect:301", "redirect:302", "redirect:307", "redirect:308", "trunc:3", "stall", "delay:700"}
 
 type distWitness struct {
 	answers map[string][]byte
@@ -52,6 +52,7 @@ type c15Result struct {
 	fired   map[string]int
 	simTime time.Duration
 	infra   string
+	neverFinished bool
 }
 
 func c15Exec(t *testing.T, p *Plan) (r *c15Result) {
@@ -164,6 +165,7 @@ func c15Exec(t *testing.T, p *Plan) (r *c15Result) {
 		}
 		r.answers = dw.answers
 		sn := NewSimNet()
+		sn.Latency = time.Millisecond
 		sn.Hosts["distributor.example"] = http.HandlerFunc(func(rw http.ResponseWriter, rq *http.Request) {
 			if strings.HasPrefix(rq.URL.Path, "/redirected") && p.Cfg.Notes["redirect_target"] == "200" {
 				// a distributor (or something in front of it) whose redirect target is a friendly landing page
@@ -180,20 +182,29 @@ func c15Exec(t *testing.T, p *Plan) (r *c15Result) {
 		})
 		// network answers are addressed per PUT in order of arrival
 		nput := 0
+		seenPut := map[string]bool{}
 		// faults are keyed by the n-th PUT to the distributor path: resolve lazily through a wrapper
 		base := sn
 		rt := roundTripFunc(func(req *http.Request) (*http.Response, error) {
-			if req.Method == http.MethodPut && strings.HasPrefix(req.URL.Path, "/distributor/") && !strings.HasPrefix(req.URL.Path, "/redirected") {
+			if req.Method == http.MethodPut && strings.HasPrefix(req.URL.Path, "/distributor/") && !strings.HasPrefix(req.URL.Path, "/redirected") && !seenPut[req.URL.EscapedPath()] {
+				seenPut[req.URL.EscapedPath()] = true // repeats of the same PUT (a client following a redirect loop) are not new pushes
 				base.mu.Lock()
 				if nput < len(r.net) && r.net[nput] != "" {
 					base.Faults[fmt.Sprintf("net#%d", len(base.Log))] = r.net[nput]
+					if strings.HasPrefix(r.net[nput], "redirloop") {
+						base.Faults[req.Method+" "+req.URL.Host+req.URL.EscapedPath()+"#*"] = r.net[nput]
+					}
 				}
 				nput++
 				base.mu.Unlock()
 			}
 			return base.RoundTrip(req)
 		})
-		d, err := rest.NewDistributor("http://distributor.example", &http.Client{Transport: rt, Timeout: 5 * time.Second}, logs, witV, dw)
+		timeout := 5 * time.Second
+		if p.Cfg.Notes["client_timeout"] == "none" {
+			timeout = 0 // a client with no overall timeout: net/http's own redirect limit is then the only thing that ends a redirect loop
+		}
+		d, err := rest.NewDistributor("http://distributor.example", &http.Client{Transport: rt, Timeout: timeout}, logs, witV, dw)
 		if err != nil {
 			r.infra = "NewDistributor: " + err.Error()
 			return
@@ -215,8 +226,22 @@ func c15Exec(t *testing.T, p *Plan) (r *c15Result) {
 			}
 		}
 		if !finished {
-			r.infra = "DistributeOnce did not finish within 1000 simulated seconds"
-			<-done
+			r.neverFinished = true
+			r.simTime = time.Since(start)
+			r.reqs, r.wcalls, r.fired = sn.Requests(), dw.calls, sn.Fired
+			sn.mu.Lock()
+			sn.Default = "drop" // end whatever loop it is in, so that the bubble can be left
+			sn.Faults = map[string]string{}
+			sn.mu.Unlock()
+			for i := 0; i < 2000; i++ {
+				synctest.Wait()
+				select {
+				case <-done:
+					i = 1 << 20
+				default:
+					time.Sleep(time.Second)
+				}
+			}
 			return
 		}
 		r.simTime = time.Since(start)
@@ -257,6 +282,10 @@ func oracleC15(p *Plan, r *c15Result) []Violation {
 	var out []Violation
 	add := func(cls, sig, d string) { out = append(out, Violation{Class: cls, Sig: cls + "/" + sig, Detail: d}) }
 	w := r.W
+	if r.neverFinished {
+		add("log_skipped_after_failure", "cycle_never_ended", fmt.Sprintf("DistributeOnce was still running after 1000 simulated seconds (answers %v, network %v, client timeout %q, %d requests so far): the remaining logs are never attempted and no result is reported", r.kinds, r.net, p.Cfg.Notes["client_timeout"], len(r.reqs)))
+		return out
+	}
 	// every log is asked for, once, in order, whatever happened before
 	if len(r.wcalls) != len(w.Logs) {
 		add("log_skipped_after_failure", "witness_calls", fmt.Sprintf("%d logs configured, the witness was asked %d times (answers %v, network %v)", len(w.Logs), len(r.wcalls), r.kinds, r.net))
@@ -293,6 +322,9 @@ func oracleC15(p *Plan, r *c15Result) []Violation {
 			netf = r.net[nput]
 		}
 		nput++
+		if strings.HasPrefix(netf, "redirloop") && len(mine) >= 1 {
+			mine = mine[:1] // the client follows the loop for a while; the first request is the PUT under test
+		}
 		if len(mine) != 1 {
 			add("log_skipped_after_failure", "put_count", fmt.Sprintf("log %d (answer %s): expected exactly one request naming its ID, saw %d (answers %v, network %v)", i, kind, len(mine), r.kinds, r.net))
 			failures++
@@ -372,9 +404,15 @@ func init() {
 				}
 				net = append(net, Pick(r, c15Net...))
 			}
+			notes0 := strings.Join(net, ",")
+			_ = notes0
 			p.Cfg.Notes = map[string]string{"answers": strings.Join(ans, ","), "net": strings.Join(net, ","),
 				"redirect_target": Pick(r, "404", "200"),
+				"client_timeout":  Pick(r, "5s", "5s", "none"),
 				"witname": Pick(r, "wit0", "wit0", "witness.example/w1", "w%41", "wit?x#y", "ŵit-ness", "a:b@c", "wit&co=1")}
+			if p.Cfg.Notes["client_timeout"] == "none" {
+				p.Cfg.Notes["net"] = strings.ReplaceAll(p.Cfg.Notes["net"], "stall", "drop") // a stalled peer and no timeout never ends, by definition
+			}
 			return p
 		},
 		Run: func(t *testing.T, p *Plan) *Outcome {
